@@ -1,0 +1,28 @@
+//go:build verif
+
+package vault
+
+// Contracts for the verification framework in /verif (comment-only file, build tag `verif`).
+//
+// Ghost call log of the grouped vault (exists only in the logic): counters of the calls and the
+// arguments of the last call. The contracts below are TRUSTED w.r.t. the rest of the heap (the
+// vault touches only its own collectors) and DEFINE the ghost log.
+
+//@ ghost nExpire int
+//@ ghost nApply int
+//@ ghost lastKind string
+//@ ghost lastGroup string
+//@ ghost lastName string
+//@ ghost lastValue float64
+
+//@ trusted func (*GroupedVault).ExpireGroupMetrics
+//@   modifies nExpire, lastGroup
+//@   ensures nExpire == old(nExpire) + 1 && lastGroup == group
+
+//@ trusted func (*GroupedVault).CounterAdd
+//@   modifies nApply, lastKind, lastGroup, lastName, lastValue
+//@   ensures nApply == old(nApply) + 1 && lastKind == "add" && lastGroup == group && lastName == name && lastValue == value
+
+//@ trusted func (*GroupedVault).GaugeSet
+//@   modifies nApply, lastKind, lastGroup, lastName, lastValue
+//@   ensures nApply == old(nApply) + 1 && lastKind == "set" && lastGroup == group && lastName == name && lastValue == value
